@@ -60,7 +60,7 @@ def drive(rep, tier, seed):
         plans.append(plan)
 
     # exact level: binary operators and conversions
-    for _ in range(220 * scale):
+    for _ in range(150 * scale):
         a, b = tg.random_exact(rng, tier), tg.random_exact(rng, tier)
         if rng.random() < 0.25:
             b = rng.choice([tg.c_int(0), tg.c_rat(1, 2), tg.c_int(-1), a])
@@ -89,7 +89,7 @@ def drive(rep, tier, seed):
             plan.append(("un", op, a))
         add(steps, plan)
     # float level
-    for _ in range(160 * scale):
+    for _ in range(100 * scale):
         x, y = tg.random_float(rng), tg.random_float(rng)
         a, b = tg.c_float(x), tg.c_float(y)
         steps = [{"src": "aa := " + tg.src_of(a), "obs": ["aa"]}, {"src": "bb := " + tg.src_of(b), "obs": ["bb"]}]
@@ -103,7 +103,7 @@ def drive(rep, tier, seed):
         add(steps, plan)
     # mixed level: one operand exact, the other a float (both orders); aux = the float operation on
     # the converted operands, evaluated in the same session
-    for _ in range(160 * scale):
+    for _ in range(100 * scale):
         e = tg.random_exact(rng, tier)
         f = tg.c_float(tg.random_float(rng, finite=False))
         a, b = (e, f) if rng.random() < 0.5 else (f, e)
@@ -116,7 +116,7 @@ def drive(rep, tier, seed):
             plan.append(("aux",))
         add(steps, plan)
     # vectors
-    for _ in range(120 * scale):
+    for _ in range(80 * scale):
         def elem():
             r = rng.random()
             if r < 0.5:
